@@ -62,6 +62,8 @@ class J1939_22:
     def __init__(self, send_message, job_thread_wakeup, notify_subscribers, max_cmdt_packets, minimum_tp_rts_cts_dt_interval, minimum_tp_bam_dt_interval, ecu_is_message_acceptable):
         # Receive buffers
         self._rcv_buffer = {}
+        # the receive path registers sessions, the job thread removes the ones that time out
+        self._rcv_lock = threading.Lock()
         # Send buffers
         self._snd_buffer = {}
         # Multi-PG Send buffers
@@ -383,9 +385,10 @@ class J1939_22:
                     logger.info('Deadline reached for rcv_buffer src 0x%02X dst 0x%02X', buf['src_address'], buf['dest_address'] )
                     if buf['dest_address'] != ParameterGroupNumber.Address.GLOBAL:
                         self.__send_tp_abort(buf['dest_address'], buf['src_address'], buf['session'], self.ConnectionAbortReason.TIMEOUT, buf['pgn'])
-                        self._rcv_buffer.pop(bufid, None)
-                    else:
-                        self._rcv_buffer.pop(bufid, None)
+                    with self._rcv_lock:
+                        if self._rcv_buffer.get(bufid) is buf:
+                            # (not a session the receive path has opened for this key in the meantime)
+                            self._rcv_buffer.pop(bufid, None)
                     # TODO: should we notify our CAs about the cancelled transfer?
 
         # check multi-pg send buffers for timeout
@@ -565,7 +568,7 @@ class J1939_22:
             num_segments = min(num_segments, segment_num)
 
             # open new buffer for this connection
-            self._rcv_buffer[buffer_hash] = {
+            new_session = {
                     'pgn': pgn,
                     'session': session_num,
                     'message_size': message_size, # total message size, number of bytes
@@ -578,6 +581,8 @@ class J1939_22:
                     'src_address' : src_address,
                     'dest_address' : dest_address,
                 }
+            with self._rcv_lock:
+                self._rcv_buffer[buffer_hash] = new_session
             self.__send_tp_cts(dest_address, src_address, session_num, self._rcv_buffer[buffer_hash]['num_segments_max_rec'], 1, pgn)
             self.__job_thread_wakeup()
 
@@ -660,7 +665,7 @@ class J1939_22:
                 del self._rcv_buffer[buffer_hash]
 
             # init new buffer for this connection
-            self._rcv_buffer[buffer_hash] = {
+            new_session = {
                     'pgn': pgn,
                     'session': session_num,
                     'message_size': message_size, # Total message size, number of bytes
@@ -671,6 +676,8 @@ class J1939_22:
                     'src_address' : src_address,
                     'dest_address' : dest_address,
                 }
+            with self._rcv_lock:
+                self._rcv_buffer[buffer_hash] = new_session
             self.__job_thread_wakeup()
 
         elif control_byte == self.TpControlType.ABORT:
